@@ -306,3 +306,22 @@ M("dm22_spn_shift", ["C16"], "DM22 SPN high bits shifted by 22 (D8 reverted)",
   ("j1939/diagnostic_messages.py", "((spn >> 11) & 0xE0)", "((spn >> 22) & 0xE0)"))
 M("dm1_priority_only", ["C16"], "harmless: DM1 priority 6 always", 
   ("j1939/diagnostic_messages.py", "            priority = 7\n        else:", "            priority = 6\n        else:"))
+
+M("dm14_values_slice", ["C17"], "converted read decodes every object from the first bytes (D9 reverted)",
+  ("j1939/Dm14Query.py", "raw_bytes[i * self.object_byte_size : (i + 1) * self.object_byte_size],", "raw_bytes[i : self.object_byte_size],"))
+M("dm14_read_8_as_single", ["C17"], "8-byte read treated as single frame (D10a reverted)",
+  ("j1939/Dm14Server.py", "            if (len(self.data)) <= 7:", "            if (len(self.data)) <= 8:"))
+M("dm14_stale_ack_queued", ["C17"], "EndOfMsgACK of the server's DM16 queued as data (D10b reverted)",
+  ("j1939/Dm14Server.py", "        if self.command != j1939.Command.READ.value:\n            # (for a read this is the end-of-message acknowledge of our own DM16, not data)\n            self.data_queue.put(data[1 : length + 1])", "        self.data_queue.put(data[1 : length + 1])"))
+M("dm14_dm16_length_cap", ["C17"], "client caps DM16 data at 200 bytes",
+  ("j1939/Dm14Query.py", "        length = min(data[0], len(data) - 1)\n        # assert object_count == self.object_count", "        length = min(data[0], len(data) - 1, 200)\n        # assert object_count == self.object_count"))
+M("dm14_pointer_big_endian", ["C17"], "client encodes the pointer big-endian",
+  ("j1939/Dm14Query.py", "pointer = self.address.to_bytes(length=4, byteorder=\"little\")", "pointer = self.address.to_bytes(length=4, byteorder=\"big\")"))
+M("dm14_signed_ignored", ["C17"], "signed flag ignored on conversion",
+  ("j1939/Dm14Query.py", "                    signed=self.signed,", "                    signed=False,"))
+M("dm14_write_values_be", ["C17"], "written values encoded big-endian",
+  ("j1939/Dm14Query.py", "bytes.extend(val.to_bytes(self.object_byte_size, byteorder=\"little\"))", "bytes.extend(val.to_bytes(self.object_byte_size, byteorder=\"big\"))"))
+M("dm14_pointer_type_mask", ["C17"], "server reports pointer type from the wrong bit",
+  ("j1939/Dm14Server.py", "                self.pointer_type = (data[1] >> 4) & 0x1", "                self.pointer_type = (data[1] >> 5) & 0x1"))
+M("dm14_client_no_cleanup", ["C17", "C18"], "client leaves its DM15 handler subscribed (D25 reverted)",
+  ("j1939/Dm14Query.py", "        self._ca.unsubscribe(self._parse_dm15)\n        self._ca.unsubscribe(self._parse_dm16)\n        self.state = QueryState.IDLE", "        self.state = QueryState.IDLE"))
